@@ -68,6 +68,14 @@ CHECKS = {
    text="Endpoints.tla histories with long-running (watch-like) requests plus directed removal scenarios (request blocked before headers / mid-stream when its endpoint is removed, disabled, or its cluster deleted, with a control stream on another cluster) are replayed over real HTTP; TLC validates: the affected request ends within 5 s (observed: milliseconds) and is the only one cut, new requests never reach the removed endpoint (503 for a deleted cluster), no probe after the removal settled, unaffected clusters keep working.",
    note="The 5 s bound is the only wall-clock bound of the suite; a miss is a hang.",
    technique="TLC-simulated and directed removal histories replayed over real HTTP + TLC trace validation"),
+ "C06": dict(cat="model_checking", design="4/C06",
+   text="TokenBucket.tla models the bucket as used (lazy refill, refusals do not consume) and TLC checks the window bound 'admitted <= burst + qps*T' over every window and the never-stricter clause 'after idle t at least min(burst, floor(qps*t)) admitted' exhaustively for small (qps, burst); TLC-simulated arrival patterns (pauses of 1/8..3 s, bursts of simultaneous callers) are replayed EXACTLY on the real gateway bucket obtained through UpstreamLimiter.Sync/GetOrDefault on virtual time, with random resizes (new run) and no-op syncs (must not refill); TLC validates every recorded timed grant log against both clauses.",
+   note="Dyadic times and power-of-two qps keep the float bucket exact; the dispatcher's 429 is covered by C04's flow-control cases.",
+   technique="TLC invariants on the token-bucket model + simulated arrival patterns replayed on virtual time + TLC trace validation"),
+ "C16": dict(cat="exploration", design="4/C16",
+   text="Validation.tla defines the abstract object classes per section and MustReject (the rejection classes the statement names); TLC enumerates every class of every section plus section pairs and all flow-control member x numeric x strategy combinations; each is concretised (1-4 variants) and given to the REAL admission plugin's Validate under recover/watchdog; every accepted object is applied for real (CreateClusterInfo + perturbed Sync; create/update/delete through a real gateway controller and a real limiter server on virtual time, crash-isolated); TLC validates the three clauses (verdict always; MustReject => rejected; accepted => applicable).",
+   note="Totality over ALL objects is a Go memory-safety statement on an unbounded type: the spec supplies the finite class product, the verdict is the real code's behaviour (DESIGN section 5).",
+   technique="TLC-enumerated object classes run through the real validator and real consumers + TLC trace validation"),
 }
 
 NOT_YET = {}
